@@ -157,8 +157,33 @@ def decide_int_eq(a, b, timeout_ms=20000, path=()):
     t0 = time.time(); r = s.check(); dt = time.time() - t0
     if r == z3.unsat: return 'unsat', None, dt, s.to_smt2()
     if r == z3.sat:
+        if not path and _equal_mod_group_order(a, b): return 'unsat', None, time.time() - t0, s.to_smt2()
         m = s.model(); return 'sat', {str(d): str(m[d]) for d in m.decls() if d.arity() == 0}, dt, s.to_smt2()
     return 'unknown', None, dt, s.to_smt2()
+
+def _equal_mod_group_order(a, b):
+    """a - b is a linear form in the point symbols all of whose coefficients are multiples of the group order r (points are elements of
+    the prime-order group: k P = k' P whenever k = k' mod r; `[r]B = O` is an obligation of C05/C17)"""
+    from .poly import FIELDS
+    R_ = FIELDS['Fr']
+    d = z3.simplify(a - b)
+    vars_ = set()
+    def walk(e):
+        if z3.is_const(e) and e.decl().kind() == z3.Z3_OP_UNINTERPRETED: vars_.add(e); return True
+        if z3.is_app(e) and e.decl().kind() == z3.Z3_OP_UNINTERPRETED and e.num_args() > 0: return False
+        return all(walk(c) for c in e.children())
+    if not walk(d) or not vars_ or any(not z3.is_int(v) for v in vars_): return False
+    vs = sorted(vars_, key=str)
+    zero = [(v, z3.IntVal(0)) for v in vs]
+    base = z3.simplify(z3.substitute(d, *zero))
+    if not z3.is_int_value(base) or base.as_long() % R_: return False
+    lin = base
+    for v in vs:
+        c = z3.simplify(z3.substitute(d, *[(w, z3.IntVal(1 if w.eq(v) else 0)) for w in vs]) - base)
+        if not z3.is_int_value(c) or c.as_long() % R_: return False
+        lin = lin + c * v
+    s = z3.Solver(); s.set('timeout', 10000); s.add(d != lin)
+    return s.check() == z3.unsat
 
 OPS = {'Add': ('add', lambda l, r: l + r), 'Sub': ('sub', lambda l, r: l - r),
        'AddAssign': ('add_assign', lambda l, r: l + r), 'SubAssign': ('sub_assign', lambda l, r: l - r)}
